@@ -372,6 +372,31 @@ def direct_clauses(pid, bench, ta, a, tb, b):
                     if any(p != q for p, q in ms):
                         yield ("membership depends on the order in which two constraints were given",
                                {"constraints": [c + tx, d + ty], "membership": ms})
+        if pid == "C10" and x is a:
+            # the two versions among a few ranked versions of the pool as the known versions, against ranges that
+            # contain all, or all but one, of them
+            reps = [cl[0] for cl in bench.pool.classes]
+            known = [(tx, x), (ty, y)] + reps[:3] + reps[-3:]
+            star = VersionConstraint(comparator="*", version_class=bench.cls)
+            ranges = [R(constraints=[star])]
+            for _t, v in (reps[:1] + [(tx, x), (ty, y)]):
+                for c in (">=", "!=", "<="):
+                    try:
+                        ranges.append(R(constraints=[mk(c, v)]))
+                    except Exception:  # noqa: BLE001
+                        pass
+            for r in ranges:
+                try:
+                    n = r.normalize([t for t, _ in known])
+                except Exception as e:  # noqa: BLE001
+                    yield ("normalize raises", {"range": str(r), "known": [t for t, _ in known], "error": exc_name(e)})
+                    continue
+                bad = [(tk, _mem(r, k), _mem(n, k)) for tk, k in known if _mem(r, k) != _mem(n, k)]
+                if bad:
+                    yield ("a known version is in the normalised range but not in the original, or the reverse",
+                           {"range": str(r), "known": [t for t, _ in known], "normalized": str(n), "version": bad[0][0],
+                            "in_original": bad[0][1], "in_normalized": bad[0][2]})
+                    break
         if pid == "C10":
             for c in (">=", "<=", "!="):
                 r = R(constraints=[mk(c, y)])
